@@ -483,6 +483,40 @@ fn chunked(stream: &[u8], cuts: &[usize], rng: &mut Rng, eof: bool, notready: bo
     reads
 }
 
+/// the literals of a stream under the IMAP framing rule: (first content byte, one past the last content byte)
+fn literal_spans(stream: &[u8]) -> Vec<(usize, usize)> {
+    let mut spans = vec![];
+    let mut pos = 0usize;
+    while pos < stream.len() {
+        // end of the current line
+        let mut e = pos;
+        while e + 1 < stream.len() && !(stream[e] == b'\r' && stream[e + 1] == b'\n') {
+            e += 1;
+        }
+        if e + 1 >= stream.len() {
+            break;
+        }
+        let line = &stream[pos..e];
+        let mut next = e + 2;
+        if line.ends_with(b"}") {
+            let mut k = line.len() - 1;
+            while k > 0 && line[k - 1].is_ascii_digit() {
+                k -= 1;
+            }
+            if k > 0 && line[k - 1] == b'{' && k < line.len() - 1 {
+                if let Ok(n) = std::str::from_utf8(&line[k..line.len() - 1]).unwrap().parse::<usize>() {
+                    if next + n <= stream.len() {
+                        spans.push((next, next + n));
+                        next += n;
+                    }
+                }
+            }
+        }
+        pos = next;
+    }
+    spans
+}
+
 pub fn framed_main(args: &[String]) {
     let seed: u64 = args.first().map(|s| s.parse().unwrap()).unwrap_or(1);
     let n: usize = args.get(1).map(|s| s.parse().unwrap()).unwrap_or(50);
@@ -495,6 +529,18 @@ pub fn framed_main(args: &[String]) {
         for cut in 1..c.len() {
             let reads = vec![Rd::Chunk(c[..cut].to_vec()), Rd::NotReady, Rd::Chunk(c[cut..].to_vec()), Rd::NotReady];
             println!("{}", run_framed(c, reads, 12));
+        }
+    }
+    // a literal longer than any read buffer whose content has no line end in it, cut at every boundary of the literal
+    for len in [8193usize, 9000, 70000] {
+        let mut big = format!("* 1 FETCH (UID 7 BODY[] {{{}}}\r\n", len).into_bytes();
+        big.extend(std::iter::repeat(b'Q').take(len));
+        big.extend_from_slice(b")\r\nA0001 OK done\r\n");
+        for (a, b) in literal_spans(&big) {
+            for c in [a - 1, a, a + 1, b - 1, b, b + 1] {
+                let reads = vec![Rd::Chunk(big[..c].to_vec()), Rd::NotReady, Rd::Chunk(big[c..].to_vec()), Rd::NotReady];
+                println!("{}", run_framed(&big, reads, 12));
+            }
         }
     }
     for k in 0..n {
@@ -515,6 +561,22 @@ pub fn framed_main(args: &[String]) {
             let end = pos.min(last + 120);
             for cut in last + 1..end {
                 let reads = vec![Rd::Chunk(stream[..cut].to_vec()), Rd::NotReady, Rd::Chunk(stream[cut..].to_vec()), Rd::NotReady];
+                println!("{}", run_framed(&stream, reads, polls));
+            }
+        }
+        // cuts at the boundaries of literals: around the end of the header line and around the end of the content
+        for (a, b) in literal_spans(&stream).into_iter().take(3) {
+            let mut cuts: Vec<usize> = vec![a.saturating_sub(1), a, a + 1, b.saturating_sub(1), b, b + 1];
+            cuts.retain(|c| *c > 0 && *c < stream.len());
+            cuts.dedup();
+            for c in cuts {
+                let reads = vec![Rd::Chunk(stream[..c].to_vec()), Rd::NotReady, Rd::Chunk(stream[c..].to_vec()), Rd::NotReady];
+                println!("{}", run_framed(&stream, reads, polls));
+            }
+            // the last bytes of the content one at a time
+            if b >= a + 3 && b < stream.len() {
+                let reads = vec![Rd::Chunk(stream[..b - 3].to_vec()), Rd::NotReady, Rd::Chunk(stream[b - 3..b - 2].to_vec()), Rd::Chunk(stream[b - 2..b - 1].to_vec()),
+                                 Rd::NotReady, Rd::Chunk(stream[b - 1..b].to_vec()), Rd::NotReady, Rd::Chunk(stream[b..].to_vec()), Rd::NotReady];
                 println!("{}", run_framed(&stream, reads, polls));
             }
         }
